@@ -42,3 +42,21 @@ package router
 //@ func validMethod
 //@   prop C03
 //@   ensures result == (method == "DELETE" || method == "GET" || method == "HEAD" || method == "OPTIONS" || method == "PATCH" || method == "POST" || method == "PUT")
+
+// Not found: the configured not-found handler answers, or the standard 404.
+//@ func (*patRouter).handleNotFound
+//@   prop C03
+//@   requires pr != nil
+//@   ensures [custom] pr.notFound != nil ==> calls(pr.notFound.ServeHTTP, w, r) == 1 && calls(http.NotFound) == 0
+//@   ensures [standard-404] pr.notFound == nil ==> calls(http.NotFound, w, r) == 1 && calls(ServeHTTP) == 0
+//@ func NewRouter
+//@   prop C03
+//@   ensures [empty] typeis(result, ptr(patRouter)) && unbox(result, ptr(patRouter)).trees != nil && forallk(s, string, !has(unbox(result, ptr(patRouter)).trees, s)) && unbox(result, ptr(patRouter)).notFound == nil && unbox(result, ptr(patRouter)).notAllowed == nil
+//@ func (*patRouter).SetNotFoundHandler
+//@   prop C03
+//@   requires pr != nil
+//@   ensures pr.notFound == handler && pr.notAllowed == old(pr.notAllowed)
+//@ func (*patRouter).SetNotAllowedHandler
+//@   prop C03
+//@   requires pr != nil
+//@   ensures pr.notAllowed == handler && pr.notFound == old(pr.notFound)
